@@ -76,6 +76,12 @@ CLAIMED = {
     text='Rectangular geometries (1-12 x 1-12 x 2-14 blocks, either horizontal direction possibly a single block, random spacings and origins, rotations with permeability direction 1 along the geometry\'s first axis, all atmosphere types and conventions, flat / stepped / sloping surfaces incl. exactly on layer tops, atmosphere volumes 1e25 / 1e50 / 0) are converted by the real fromgeo, optionally written to and re-read from a data file and optionally renamed to unrelated names; the real rectgeo must return a geometry whose columns (matched by position), surfaces, layers and atmosphere arrangement equal the original and a block map under which the real fromgeo regenerates the original block names, volumes and connections (area, direction, per-block distances, orientation).',
     note='Trusted: comparison code in vf/props/c18.py and the C09 signature. In memory the tolerance is 1e-7 x extent; after a file round trip it is computed from the resolution of the 10.3e centre fields (translation + rotation lever arm) and the 10.4e distance/volume fields. The remove_inactive=True option with demoted zero-volume blocks is not exercised (zero-volume atmosphere blocks are).',
     design='DESIGN.md §3 C18'),
+
+ 'C19': dict(
+    technique='runtime differential monitor: real block_mapping / t2incon.transfer_from / t2data.transfer_from against brute-force nearest-centre search, the 3x3 atmosphere table and before/after snapshots',
+    text='For generated pairs of geometries over the same region (coarse/fine, column- and layer-refined, shifted, resurfaced, identical, g7 vs refined g7) in all 9 atmosphere combinations and mixed conventions, every target block\'s mapping returned by the real block_mapping is compared with an exhaustive nearest-column / nearest-layer search including the move down to the first layer below ground, existence of the mapped source block, the column mapping and identity of a geometry onto itself; t2incon.transfer_from (with the brute-force mapping handed in) must give every underground block exactly its mapped source state, the atmosphere state per the 3x3 table (copy / broadcast / per-column / average / default), the geometry\'s block order, and leave the source untouched; t2data.transfer_from onto a deep copy of the same geometry must preserve every generator (block, category or name, rate, tables), total generation and rock assignment, with and without total preservation.',
+    note='Trusted: brute-force search in vf/props/c19.py; pairs with two source candidates within 1e-6 relative distance are regenerated. Where the source has no single corresponding atmosphere block (target type 0 / source type 1, or source type 2) the mapping of the target atmosphere block is unconstrained except that it must not name a block the source does not have.',
+    design='DESIGN.md §3 C19'),
 }
 
 def main():
